@@ -1169,7 +1169,7 @@ impl Sim for SimB {
                             stats.probe("fill_with_position_after");
                             if !close_enough(pos.pnl_unrealised, est(fill_price)) {
                                 let key = if opened
-                                    && *fee_bp > 0
+                                    && *fee_bp != 0
                                     && pos.pnl_unrealised.is_zero()
                                     && close_enough(est(fill_price), -pos.fees_enter.fees)
                                 {
